@@ -217,7 +217,8 @@ class C04(Check):
         "T7": "caller-owned arrays: a public array argument that is shifted in place (+=, -=) is first converted with a copying "
               "constructor (np.array / .copy()); np.asarray / np.asanyarray / copy=False alias the caller's array, whose requested points "
               "would be altered for every later call",
-        "T6": "refusal condition is `requested_end <= reached` in both continuation entry points",
+        "T6": "refusal condition is `requested_end <= reached` in both continuation entry points, with `reached` the last index entry of the LAST "
+              "stored frame (0.0 when nothing is stored); requested points before `reached` are removed before the integrator sees them",
     }
     floors = {"T1": 5, "T2": 6, "T3": 3, "T4": 3, "T5": 4, "T6": 2, "T7": 2, "T8": 1}
     decided = [
@@ -545,36 +546,83 @@ class C04(Check):
                 self.holds("T7", SIM, q, "in-place-shift-on-private-copy", verdicts[0][0], f"{len(verdicts)} in-place shift(s), all on a private copy of the argument")
 
     def t6(self, mod) -> None:
-        for name, req in (("simulate", "t_end"), ("simulate_time_course", "time_points[-1]")):
+        """Refusal of a continuation that does not end later than the time reached, from the path summaries: the time reached is the
+        last index entry of the LAST stored frame (0.0 when nothing is stored), the requested end is t_end / the last requested point."""
+        import re as _re
+
+        from ..interp import Sym, SymInterp
+
+        class I1(SymInterp):
+            loop_unroll = 1
+
+        FR = "self.variables"
+        REACHED = {f"{FR}[-1].index[-1]", f"{FR}[-1].index.max()", f"{FR}[-1].index.values[-1]", f"{FR}[-1].index.to_numpy()[-1]", f"{FR}[-1].index[len({FR}[-1].index) - 1]",
+                   f"{FR}[len({FR}) - 1].index[-1]", f"float({FR}[-1].index[-1])"}
+        ZERO = {"0.0", "0", "float(0)"}
+        for name, is_req in (("simulate", lambda t: t == "t_end"), ("simulate_time_course", lambda t: "time_points" in t and (t.endswith("[-1]") or t.endswith(".max()")))):
             fn = mod.func(f"{CLS}.{name}")
             q = f"{CLS}.{name}"
-            hit = None
-            for n in walk_no_nested(fn):
-                if isinstance(n, ast.If) and any(isinstance(x, ast.Raise) and "ValueError" in norm(x) for x in n.body):
-                    hit = n
-            if hit is None:
-                self.violated("T6", SIM, q, "refusal", fn, "no refusal of a continuation whose end is not later than the time reached")
-                continue
-            t = hit.test
-            pol = True
-            while isinstance(t, ast.UnaryOp) and isinstance(t.op, ast.Not):
-                pol, t = not pol, t.operand
-            ok = False
-            if isinstance(t, ast.Compare) and len(t.ops) == 1:
-                l, r, op = norm(t.left), norm(t.comparators[0]), t.ops[0]
-                if pol and isinstance(op, ast.LtE) and l == req and "prior" in r:
-                    ok = True
-                if pol and isinstance(op, ast.GtE) and r == req and "prior" in l:
-                    ok = True
-                if not pol and isinstance(op, ast.Gt) and l == req and "prior" in r:
-                    ok = True
-                if not pol and isinstance(op, ast.Lt) and r == req and "prior" in l:
-                    ok = True
-            if ok:
-                self.holds("T6", SIM, q, "refusal", hit, f"refused iff {req} <= time reached")
+            out = I1().run_function(fn, Sym())
+            paths = [st for st, _ in out.returns if ("len(self._errors) > 0", True) not in st.conds]
+            if not paths:
+                raise AnalysisError(f"{q}: no returning path")
+            anchor = next((n for n in walk_no_nested(fn) if isinstance(n, ast.If) and any(isinstance(x, ast.Raise) for x in n.body)), fn)
+            problems = []
+            n_ok = 0
+            for st in paths:
+                none = dict((c, v) for c, v in st.conds).get(f"{FR} is None")
+                found = False
+                for c, v in st.conds:
+                    m = _re.match(r"^(?P<a>.+?) (?P<op><=|>=|<|>) (?P<b>.+)$", c)
+                    if not m or c.startswith("len(") or ".all()" in c or c.startswith("any(") or c.startswith("("):
+                        continue
+                    a, op, b = m.group("a"), m.group("op"), m.group("b")
+                    # normalise to "req OP reached" being the CONTINUE condition
+                    if is_req(a):
+                        req, reached, cont = a, b, {"<=": not v, ">": v}.get(op)
+                    elif is_req(b):
+                        req, reached, cont = b, a, {">=": not v, "<": v}.get(op)
+                    else:
+                        continue
+                    if cont is None:
+                        problems.append(f"`{c}` lets a continuation end AT the time reached (or refuses a later end)")
+                        found = True
+                        continue
+                    found = True
+                    want = ZERO if none else REACHED
+                    if not cont:
+                        problems.append(f"a path continues although `{c}` is {v}")
+                    elif reached not in want:
+                        problems.append(f"the time reached is taken as `{reached}`" + (" although nothing is stored" if none else f", not the end of the last stored frame `{FR}[-1].index[-1]`"))
+                    else:
+                        n_ok += 1
+                if not found:
+                    problems.append("a path reaches the integrator without comparing the requested end with the time reached")
+            if problems:
+                self.violated("T6", SIM, q, "refusal", anchor, "; ".join(sorted(set(problems))[:3]),
+                              witness="simulate(5); simulate(5) is accepted (duplicate end point), simulate(5); simulate(6) refused, or - with three segments - the end of the FIRST segment decides")
             else:
-                self.violated("T6", SIM, q, "refusal", hit, f"refusal test `{norm(hit.test)}` is not `{req} <= reached`",
-                              witness="simulate(5); simulate(5) is accepted (duplicate end point), or simulate(5); simulate(6) refused")
+                self.holds("T6", SIM, q, "refusal", anchor, f"every continuing path has established requested end > end of the last stored frame (0.0 when nothing is stored) [{n_ok} paths]")
+            if name != "simulate_time_course":
+                continue
+            # requested points before the time reached are removed before the integrator sees them
+            oproblems = []
+            for st in paths:
+                if dict((c, v) for c, v in st.conds).get(f"{FR} is None") is not False:
+                    continue
+                sinks = [e[1] for e in st.events if e[0] == "call" and "integrate_time_course(" in e[1]]
+                if not sinks:
+                    continue
+                allc = [(c, v) for c, v in st.conds if c.endswith(").all()") and "time_points" in c]
+                proven = any(v and _re.match(r"^\((?P<arr>.+) >=? (?P<r>.+)\)\.all\(\)$", c) and _re.match(r"^\((?P<arr>.+) >=? (?P<r>.+)\)\.all\(\)$", c).group("r") in REACHED for c, v in allc)
+                masked = any(_re.search(r"\[[^\[\]]*time_points[^\[\]]* >=? " + _re.escape(r_) + r"\]", sinks[0]) for r_ in REACHED)
+                if not (proven or masked):
+                    oproblems.append("requested points that lie before the time reached are handed to the integrator")
+            if oproblems:
+                self.violated("T6", SIM, q, "overlap-removed", anchor, oproblems[0] + ": the time axis of the result is not increasing",
+                              witness="simulate_time_course([0, 1, 2]); simulate_time_course([1, 2, 3]): the second frame starts before the first one ends")
+            else:
+                self.holds("T6", SIM, q, "overlap-removed", anchor, "points before the time reached are masked out unless all points are proven not earlier")
 
     # ------------------------------------------------------------------
     def must_fire(self):
